@@ -230,15 +230,18 @@ func genSigOps(r *rand.Rand, n int) []string {
 			// implementation would change gear) signed by the library and checked by the reference, and the other way round
 			r2 := rand.New(rand.NewSource(int64(i)*15485863 + 11))
 			a2 := sigAlgs[(i/25)%len(sigAlgs)]
-			big := randBytes(r2, []int{32769, 49152, 65536, 65537, 100003}[(i/25/len(sigAlgs))%5])
+			bigMsg := randBytes(r2, []int{32769, 65536, 49152, 98304, 100003}[(i/25/len(sigAlgs))%5])
 			if a2 == iana.AlgorithmEdDSA {
 				k2 := genEdKey(r2)
 				t2 := k2.tokens(r2, 0, nil)
-				sg := goed25519.Sign(goed25519.NewKeyFromSeed(k2.seed), big)
-				extra = append(extra, fmt.Sprintf("sig.sign %s %s | same", hx(big), t2), fmt.Sprintf("sig.verify %s %s %s | same", hx(big), hx(sg), t2))
+				sg := goed25519.Sign(goed25519.NewKeyFromSeed(k2.seed), bigMsg)
+				extra = append(extra, fmt.Sprintf("sig.sign %s %s | same", hx(bigMsg), t2), fmt.Sprintf("sig.verify %s %s %s | same", hx(bigMsg), hx(sg), t2))
 			} else {
 				k2 := genEcScalar(r2, a2)
-				extra = append(extra, fmt.Sprintf("sig.sign %s %s | same", hx(big), k2.tokens(r2, 0, nil)))
+				t2 := k2.tokens(r2, 0, nil)
+				r1, s1, _ := goecdsa.Sign(rngReader{r2}, k2.goPriv(), hashFor(a2, bigMsg))
+				sg := append(r1.FillBytes(make([]byte, k2.size())), s1.FillBytes(make([]byte, k2.size()))...)
+				extra = append(extra, fmt.Sprintf("sig.sign %s %s | same", hx(bigMsg), t2), fmt.Sprintf("sig.verify %s %s %s | same", hx(bigMsg), hx(sg), t2))
 			}
 		}
 		alg := sigAlgs[r.Intn(len(sigAlgs))]
